@@ -7,7 +7,8 @@
 (***************************************************************************)
 EXTENDS Codec, Universe, Json, IOUtils
 
-CONSTANTS ModIdx, PlanSet, Depth, MaxCompose
+CONSTANTS ModIdx, PlanSet, Depth, MaxCompose, XerVals
+TheNames == JsonDeserialize(IOEnv.VERIF_NAMES)
 TheMod == Modules[ModIdx]
 
 TypeNames == {TheMod.defs[i].n : i \in DOMAIN TheMod.defs}
@@ -27,11 +28,19 @@ Compositions(from, n) == IF from = n THEN {<<>>}
 Chunked(syn, b, cuts) == <<OpStartDecode(1, syn, b)>> \o [i \in DOMAIN cuts |-> OpDecodeCall(cuts[i])]
 AllChunkings(syn, b) == IF Len(b) = 0 THEN {} ELSE {Chunked(syn, b, cs) : cs \in Compositions(0, Len(b))}
 ByteWise(syn, b) == IF Len(b) = 0 THEN {} ELSE {Chunked(syn, b, [i \in 1..Len(b) |-> i])}
-RestartableBin == {"DER", "OER"}
+\* the streams a restartable decoder can be given for value v of type n: <<syntax, octets>>;
+\* BER and OER from the reference encoders, XER text in the canonical and an indented layout
+\* XER text is long; the number of values per type given as XER streams is bounded by XerVals
+XerSubset(n) == Take({v \in Values(RawEnv, TRef(n), Depth) : XerWritable(Env, TRef(n), v)}, XerVals)
+Streams(n, v) ==
+  {<<"DER", Enc("DER", TRef(n), v)>>, <<"OER", Enc("OER", TRef(n), v)>>}
+  \cup (IF v \in XerSubset(n)
+        THEN {<<"CXER", Ser(XerTokens(Env, n, TRef(n), v), "canon")>>, <<"BXER", Ser(XerTokens(Env, n, TRef(n), v), "lf")>>}
+        ELSE {})
 PlansFor(n, v) ==
-  CASE PlanSet = "split" -> UNION {Splits(s, Enc(s, TRef(n), v)) : s \in RestartableBin}
-    [] PlanSet = "chunks" -> UNION {(IF Len(Enc(s, TRef(n), v)) <= MaxCompose THEN AllChunkings(s, Enc(s, TRef(n), v)) ELSE {})
-                                    \cup ByteWise(s, Enc(s, TRef(n), v)) : s \in RestartableBin}
+  CASE PlanSet = "split" -> UNION {Splits(st[1], st[2]) : st \in Streams(n, v)}
+    [] PlanSet = "chunks" -> UNION {(IF Len(st[2]) <= MaxCompose THEN AllChunkings(st[1], st[2]) ELSE {})
+                                    \cup ByteWise(st[1], st[2]) : st \in Streams(n, v)}
     [] OTHER -> Plans
 
 Init == \E n \in TypeNames : \E v \in Values(RawEnv, TRef(n), Depth) : \E p \in PlansFor(n, v) :
